@@ -181,9 +181,23 @@ class _Bracket(L.Listener):
         self.actor.on_bracket("OnMethodStop", self.opening, (searchData, solution, status))
 
 
-def make_recording_listener(actor, lid, overrides):
-    """Subclass of the base Listener overriding exactly `overrides` with call-site signatures."""
+def make_recording_listener(actor, lid, overrides, via="direct"):
+    """Subclass of the base Listener overriding exactly `overrides` with call-site signatures.
+    via: direct (callbacks in the class body) | inherited (defined in an intermediate class, the attached object's
+    class has an empty body) | mixin (callbacks come from a mixin listed before Listener) | console (subclass of the
+    shipped ConsoleFullOutputListener: the overridden callbacks record, then call the shipped implementation)."""
     ns = {}
+    if via == "console":
+        def _rec2(name):
+            def cb(self, *args):
+                actor.on_user_callback(lid, name, args)
+                return getattr(L.ConsoleFullOutputListener, name)(self, *args)
+            cb.__name__ = name
+            return cb
+        for name in overrides:
+            ns[name] = _rec2(name)
+        cls = type("MyConsole", (L.ConsoleFullOutputListener,), ns)
+        return cls(mode="result")
 
     def _rec(name):
         def cb(self, *args):
@@ -192,7 +206,15 @@ def make_recording_listener(actor, lid, overrides):
         return cb
     for name in overrides:
         ns[name] = _rec(name)
-    cls = type("Recording_" + "_".join(sorted(n[:2] + n[-4:] for n in overrides)) or "Recording_none", (L.Listener,), ns)
+    name = "Recording_" + "_".join(sorted(n[:2] + n[-4:] for n in overrides)) or "Recording_none"
+    if via == "inherited":
+        base = type(name + "_Base", (L.Listener,), ns)
+        cls = type(name, (base,), {})
+    elif via == "mixin":
+        mix = type(name + "_Mixin", (object,), ns)
+        cls = type(name, (mix, L.Listener), {})
+    else:
+        cls = type(name, (L.Listener,), ns)
     return cls()
 
 
@@ -276,16 +298,27 @@ class SolverActor:
         try:
             self.problem = SimProblem(self)
             p = self.params
-            self.parameters = SolverParameters(eps=p.get("eps", 0.01), r=p["r"], itersLimit=p.get("itersLimit", 20000),
-                                               evolventDensity=p.get("evolventDensity", 10),
-                                               refineSolution=p.get("refineSolution", False))
-            self.solver = Solver(self.problem, parameters=self.parameters)
+            share = self.spec.get("params_obj")
+            if share == "default":
+                # Solver(problem) without a parameters argument: the library's shared default object
+                self.parameters = None
+                self.solver = Solver(self.problem)
+            else:
+                if share and share in w.shared_params:
+                    self.parameters = w.shared_params[share]     # one SolverParameters object used for several solvers
+                else:
+                    self.parameters = SolverParameters(eps=p.get("eps", 0.01), r=p["r"], itersLimit=p.get("itersLimit", 20000),
+                                                       evolventDensity=p.get("evolventDensity", 10),
+                                                       refineSolution=p.get("refineSolution", False))
+                    if share:
+                        w.shared_params[share] = self.parameters
+                self.solver = Solver(self.problem, parameters=self.parameters)
             self.listeners = []
             if self.brackets:
                 self.solver.AddListener(_Bracket(self, True))
             for i, ls in enumerate(self.spec.get("listeners", [])):
                 if ls["kind"] == "recording":
-                    lst = make_recording_listener(self, i, ls["overrides"])
+                    lst = make_recording_listener(self, i, ls["overrides"], ls.get("via", "direct"))
                 else:
                     lst = make_shipped_listener(ls)
                 self.listeners.append(lst)
@@ -300,6 +333,31 @@ class SolverActor:
             self.construct_error = "%s: %s" % (type(e).__name__, e)
             self.aborted = "construct"
             w.log("construct_raised", self.aid, self.construct_error)
+
+    def query_evolvent(self, op):
+        """The user reads the solver's own evolvent (public attribute; a Listener receives it through
+        BeforeMethodStart(method)): image / inverse-image queries are pure (C17), so they are legal at any moment."""
+        ev = self.solver.evolvent
+        q = op["q"]
+        self.world.fired["evolvent_query_" + q] += 1
+        if q == "image":
+            r = ev.GetImage(float(op["x"]))
+            self.world.log("evq", self.aid, "image %s -> %s" % (fhex(op["x"]), vhex(r)))
+            return as_floats(r)
+        how = op.get("as", "array")
+        if how == "int_list":
+            arg = [int(v) for v in op["y"]]
+        elif how == "int_array":
+            arg = np.array([int(v) for v in op["y"]])
+        elif how == "f32":
+            arg = np.array(op["y"], dtype=np.float32)
+        elif how == "list":
+            arg = [float(v) for v in op["y"]]
+        else:
+            arg = np.array(op["y"], dtype=np.double)
+        r = (ev.GetInverseImage if q == "inverse" else ev.GetPreimages)(arg)
+        self.world.log("evq", self.aid, "%s %s -> %s" % (q, how, fhex(r)))
+        return float(r)
 
     # -- objective seam
     def on_objective_call(self, point, functionValue):
@@ -320,8 +378,9 @@ class SolverActor:
             phase = "unclassified"
         else:
             phase = "foreign"
-        if not self.brackets and phase in ("global", "pending", "local"):
-            phase = "unclassified"
+        if not self.brackets and phase == "pending":
+            # no phase information from callbacks: with refinement off every call of a Solve is a global trial
+            phase = "unclassified" if self.params.get("refineSolution") else "global"
         idx = 0
         if phase != "probe":
             self.n_real_calls += 1
@@ -356,6 +415,7 @@ class SolverActor:
                         if ft.get("persistent"):
                             self.persist_fault = ft
         v = self.f(y)
+        self.holder_before = getattr(functionValue, "value", 0.0)
         if fault is not None:
             c.fault = fault["exc"]
             self.fired_faults.append((idx, fault["exc"], fault.get("when", "before")))
@@ -363,14 +423,28 @@ class SolverActor:
             w.fired["obj_raise_" + fault.get("when", "before")] += 1
             if fault.get("when", "before") == "after":
                 functionValue.value = v
-            w.log("eval", self.aid, "%d %s %s RAISE %s" % (idx, phase, vhex(y), fault["exc"]))
-            raise core.EXC_KINDS[fault["exc"]]("injected fault at evaluation %d" % idx)
+            w.log("eval", self.aid, "%d %s %s RAISE %s%s" % (idx, phase, vhex(y), fault["exc"], " noargs" if fault.get("noargs") else ""))
+            if fault.get("noargs"):
+                exc = core.EXC_KINDS[fault["exc"]]()       # e.g. a bare `raise KeyboardInterrupt`, an assert without message
+                w.fired["obj_raise_noargs"] += 1
+            else:
+                exc = core.EXC_KINDS[fault["exc"]]("injected fault at evaluation %d" % idx)
+            _INJECTED.append(exc)
+            raise exc
         c.value = v
         c.completed = True
         functionValue.value = v
         w.log("eval", self.aid, "%d %s %s %s" % (idx, phase, vhex(y), fhex(v)))
         for mon in w.monitors:
             mon.on_eval(w, self, c)
+        if self.spec.get("holder") == "new" and phase != "probe":
+            # a Problem that returns its result in a NEW FunctionValue (legal by the signature
+            # Calculate(point, functionValue) -> FunctionValue); the holder it was given keeps its old content
+            functionValue.value = self.holder_before
+            nv = FunctionValue(functionValue.type, functionValue.functionID)
+            nv.value = v
+            w.fired["objective_returns_new_holder"] += 1
+            return nv
         return functionValue
 
     # -- listener seams
@@ -569,8 +643,11 @@ def _innermost_file(e):
     return last or ""
 
 
+_INJECTED = []      # exception objects raised by the seam (kept alive: recognised by identity)
+
+
 def is_injected(e):
-    if isinstance(e, SimFault):
+    if isinstance(e, SimFault) or any(e is x for x in _INJECTED):
         return True
     a = getattr(e, "args", None)
     return bool(a) and isinstance(a[0], str) and a[0].startswith("injected fault")
@@ -609,8 +686,19 @@ class World:
         self.clock = SimClock(plan.get("clock"))
         self.fs = FakeFS(self)
         self.actors = {}
+        # solvers given ONE SolverParameters object necessarily have the same parameter values: the group's values are
+        # those of its first member (generators and the shrinker may have edited one member only)
+        groups = {}
+        for aid in sorted(plan["actors"]):
+            g = plan["actors"][aid].get("params_obj")
+            if g and g.startswith("shared:"):
+                if g in groups:
+                    plan["actors"][aid]["params"] = dict(plan["actors"][groups[g]]["params"])
+                else:
+                    groups[g] = aid
         for aid in sorted(plan["actors"]):
             self.actors[aid] = SolverActor(self, aid, plan["actors"][aid])
+        self.shared_params = {}
         self.nested_eval = {}
         self.nested_cb = {}
         for n in plan.get("nested", []):
@@ -759,6 +847,8 @@ class World:
                 outcome["result"] = a.solver.GetResults()
             elif kind == "refine":
                 a.solver.DoLocalRefinement(int(op["n"]))
+            elif kind == "evq":
+                outcome["evq"] = a.query_evolvent(op)
             else:
                 raise HarnessError("unknown op %r" % kind)
         except HarnessError:
